@@ -133,9 +133,7 @@ for _h, _geo, _tier in (("west_2x1_small", "image 2x1, num_c 1, |index| <= 255",
                         ("west_2x1", "image 2x1, num_c 1, every i32 index", "thorough"),
                         ("north_1x2", "image 1x2, num_c 1, every i32 index", "thorough"),
                         ("west_2x1_2ch", "image 2x1, num_c 2 (predictor state restarts per channel), |index| <= 255", "thorough"),
-                        ("avg_2x1", "image 2x1, num_c 1, every i32 index", "thorough"),
-                        ("gradient_2x2", "image 2x2, num_c 1, |index| <= 255", "thorough"),
-                        ("select_2x2", "image 2x2, num_c 1, |index| <= 255", "thorough")):
+                        ("avg_2x1", "image 2x1, num_c 1, every i32 index", "thorough")):
     K("mt.pal_delta_pred_" + _h, ["C03", "C01"], "jxl-modular", MT_P, MT_PM, "pal_delta_pred_" + _h,
       "bounded:%s, nb_colours 1, bit depth 8; at least one index is NOT an explicit entry (slow path); complete over "
       "palette values / nb_deltas" % _geo,
